@@ -1,0 +1,96 @@
+//go:build verif
+
+// Contracts for the contract-based verification in /verif (comment-only file).
+
+package spao
+
+//@ import scion "github.com/scionproto/scion/pkg/slayers/path/scion"
+//@ import slayers "github.com/scionproto/scion/pkg/slayers"
+
+//@ # ---- C21: the authenticated data is a function of exactly the immutable fields
+//@ # positions of a serialized SCION path (numINF info fields, numHops hop fields) that the specification
+//@ # treats as mutable: byte 0 (CurrINF/CurrHF), the SegID of every info field, the flags byte of every hop field
+//@ spec func mutPos(numINF int, numHops int, j int) bool = j == 0 || (4 <= j && j < 4+8*numINF && ((j-4)&7 == 2 || (j-4)&7 == 3)) || (4+8*numINF <= j && j < 4+8*numINF+12*numHops && (j-4-8*numINF)%12 == 0)
+//@ spec func hopsBefore(i int, l0 uint8, l1 uint8) int = ite(i <= 0, 0, ite(i == 1, int(l0), int(l0)+int(l1)))
+//@ macro zeroedUpTo(base, buf, off) = (forall j int :: 0 <= j && j < len(buf) ==> buf[j] == ite(mutPos(base.NumINF, base.NumHops, j) && j < off, 0, old(buf[j])))
+//@ macro baseInv(base) = scion.baseOK(base.PathMeta.SegLen[0], base.PathMeta.SegLen[1], base.PathMeta.SegLen[2], base.NumINF, base.NumHops)
+
+//@ func zeroOutWithBase
+//@   props C21
+//@   requires baseInv(base) && len(buf) >= 4+8*base.NumINF+12*base.NumHops
+//@   modifies buf[:]
+//@   ensures forall j int :: 0 <= j && j < len(buf) ==> buf[j] == ite(mutPos(base.NumINF, base.NumHops, j), 0, old(buf[j]))
+//@   loop 1 invariant 0 <= rangeint_iter && rangeint_iter < base.NumINF && offset == 4+8*rangeint_iter
+//@   loop 1 invariant zeroedUpTo(base, buf, offset)
+//@   loop 2 invariant (offset-4-8*base.NumINF)%12 == 0 && 0 <= rangeint_iter && rangeint_iter < base.NumINF && offset == 4+8*base.NumINF+12*hopsBefore(rangeint_iter, base.PathMeta.SegLen[0], base.PathMeta.SegLen[1])
+//@   loop 2 invariant zeroedUpTo(base, buf, offset)
+//@   loop 3 invariant (offset-4-8*base.NumINF)%12 == 0 && 0 <= rangeint_iter__1 && rangeint_iter__1 < base.NumINF && rangeint_iter < base.PathMeta.SegLen[rangeint_iter__1] && offset == 4+8*base.NumINF+12*(hopsBefore(rangeint_iter__1, base.PathMeta.SegLen[0], base.PathMeta.SegLen[1])+int(rangeint_iter))
+//@   loop 3 invariant zeroedUpTo(base, buf, offset)
+
+//@ import path "github.com/scionproto/scion/pkg/slayers/path"
+//@ import onehop "github.com/scionproto/scion/pkg/slayers/path/onehop"
+//@ import epic "github.com/scionproto/scion/pkg/slayers/path/epic"
+//@ import empty "github.com/scionproto/scion/pkg/slayers/path/empty"
+//@ macro rawOf(x) = asptr(x, *scion.Raw)
+//@ macro ohOf(x) = asptr(x, *onehop.Path)
+//@ # data-structure invariants of the path object handed in (what decoding or construction establishes)
+//@ macro pathInv(orig, buf) = (orig != nil && (typeis(orig, *scion.Raw) ==> rawOf(orig) != nil && baseInv(rawOf(orig).Base) && len(rawOf(orig).Raw) == 4+8*rawOf(orig).NumINF+12*rawOf(orig).NumHops && !sameArray(buf, rawOf(orig).Raw)) && (typeis(orig, *onehop.Path) ==> ohOf(orig) != nil) && (typeis(orig, *scion.Decoded) ==> asptr(orig, *scion.Decoded) != nil && baseInv(asptr(orig, *scion.Decoded).Base)) && (typeis(orig, *epic.Path) ==> asptr(orig, *epic.Path) != nil && (asptr(orig, *epic.Path).ScionPath != nil ==> baseInv(asptr(orig, *epic.Path).ScionPath.Base))))
+
+//@ func zeroOutMutablePath
+//@   props C21
+//@   requires pathInv(orig, buf)
+//@   modifies buf[:]
+//@   modifies arr(rawOf(orig).Raw) if typeis(orig, *scion.Raw)
+//@   modifies arr(asptr(orig, *epic.Path).ScionPath.Raw) if typeis(orig, *epic.Path)
+//@   let r = rawOf(orig)
+//@   let o = ohOf(orig)
+//@   # SCION path: the path bytes with CurrINF/CurrHF, every SegID and every hop-field flags byte set to zero
+//@   ensures result == nil && typeis(orig, *scion.Raw) ==> len(buf) >= len(r.Raw) && buf[0] == 0 && buf[1] == (r.PathMeta.SegLen[0]&0x3f)>>4 && buf[2] == (r.PathMeta.SegLen[0]&0xf)<<4|(r.PathMeta.SegLen[1]&0x3f)>>2 && buf[3] == (r.PathMeta.SegLen[1]&0x3)<<6|r.PathMeta.SegLen[2]&0x3f
+//@   ensures result == nil && typeis(orig, *scion.Raw) ==> forall j int :: 4 <= j && j < len(r.Raw) ==> buf[j] == ite(mutPos(r.NumINF, r.NumHops, j), 0, old(r.Raw[j]))
+//@   # one-hop path: SegID, the first hop's flags and the whole second hop field are zero
+//@   ensures result == nil && typeis(orig, *onehop.Path) ==> len(buf) >= 32 && buf[0] == ite(o.Info.ConsDir, 1, 0)|ite(o.Info.Peer, 2, 0) && buf[1] == 0 && buf[2] == 0 && buf[3] == 0 && buf[4] == uint8(o.Info.Timestamp>>24) && buf[5] == uint8(o.Info.Timestamp>>16) && buf[6] == uint8(o.Info.Timestamp>>8) && buf[7] == uint8(o.Info.Timestamp) && buf[8] == 0 && buf[9] == o.FirstHop.ExpTime && buf[10] == uint8(o.FirstHop.ConsIngress>>8) && buf[11] == uint8(o.FirstHop.ConsIngress) && buf[12] == uint8(o.FirstHop.ConsEgress>>8) && buf[13] == uint8(o.FirstHop.ConsEgress) && buf[14] == o.FirstHop.Mac[0] && buf[15] == o.FirstHop.Mac[1] && buf[16] == o.FirstHop.Mac[2] && buf[17] == o.FirstHop.Mac[3] && buf[18] == o.FirstHop.Mac[4] && buf[19] == o.FirstHop.Mac[5]
+//@   ensures result == nil && typeis(orig, *onehop.Path) ==> buf[20] == 0 && buf[21] == 0 && buf[22] == 0 && buf[23] == 0 && buf[24] == 0 && buf[25] == 0 && buf[26] == 0 && buf[27] == 0 && buf[28] == 0 && buf[29] == 0 && buf[30] == 0 && buf[31] == 0
+//@   # nothing beyond the path bytes is written
+//@   ensures result == nil && typeis(orig, *scion.Raw) ==> forall j int :: len(r.Raw) <= j && j < len(buf) ==> buf[j] == old(buf[j])
+//@   ensures result == nil && typeis(orig, *onehop.Path) ==> forall j int :: 32 <= j && j < len(buf) ==> buf[j] == old(buf[j])
+//@   ensures typeis(orig, empty.Path) ==> result == nil && arrSame(buf)
+
+//@ # ---- the authenticated data (doc/protocols/authenticator-option.rst, "Authenticated Data")
+//@ macro alen(t) = (4*(1+int(t&3)))
+//@ func serializeAuthenticatedData
+//@   props C21
+//@   # the raw host addresses have the length their type announces (what decoding and SetDstAddr/SetSrcAddr establish)
+//@   requires len(s.RawDstAddr) == alen(s.DstAddrType) && len(s.RawSrcAddr) == alen(s.SrcAddrType)
+//@   requires len(buf) >= 1032 && s != nil && opt.EndToEndOption != nil && len(opt.OptData) >= 12 && pathInv(s.Path, buf)
+//@   requires !sameArray(buf, opt.OptData) && !sameArray(buf, s.RawDstAddr) && !sameArray(buf, s.RawSrcAddr)
+//@   let od = opt.OptData
+//@   let spi = uint32(od[0])<<24|uint32(od[1])<<16|uint32(od[2])<<8|uint32(od[3])
+//@   let drkey = spi > 0 && spi < 1<<21
+//@   let withDst = !drkey || (spi&(1<<17) == 0 && spi&(1<<16) != 0)
+//@   let withSrc = !drkey || (spi&(1<<17) == 0 && spi&(1<<16) == 0)
+//@   let iaLen = ite(drkey, 0, 16)
+//@   let dl = ite(withDst, len(s.RawDstAddr), 0)
+//@   let sl = ite(withSrc, len(s.RawSrcAddr), 0)
+//@   let po = 20+iaLen+dl+sl
+//@   let r = rawOf(s.Path)
+//@   let o = ohOf(s.Path)
+//@   modifies arr(buf)
+//@   modifies arr(rawOf(s.Path).Raw) if typeis(s.Path, *scion.Raw)
+//@   modifies arr(asptr(s.Path, *epic.Path).ScionPath.Raw) if typeis(s.Path, *epic.Path)
+//@   # 1. authenticator option metadata: header length, upper layer type and length, algorithm, timestamp / sequence number
+//@   ensures result1 == nil && typeis(s.Path, *scion.Raw) ==> buf[0] == uint8((28+alen(s.DstAddrType)+alen(s.SrcAddrType)+len(r.Raw))/4)
+//@   ensures result1 == nil && typeis(s.Path, *onehop.Path) ==> buf[0] == uint8((28+alen(s.DstAddrType)+alen(s.SrcAddrType)+32)/4)
+//@   ensures result1 == nil ==> buf[1] == uint8(pldType) && buf[2] == uint8(len(pld)>>8) && buf[3] == uint8(len(pld)) && buf[4] == od[4] && buf[5] == 0 && buf[6] == od[6] && buf[7] == od[7] && buf[8] == od[8] && buf[9] == od[9] && buf[10] == od[10] && buf[11] == od[11]
+//@   # 2. common header without the second row: version, traffic class WITHOUT the two ECN bits (the low two bits, RFC 3168), flow ID
+//@   ensures result1 == nil ==> buf[12] == (s.Version&0xf)<<4|(s.TrafficClass&0xfc)>>4 && buf[13] == (s.TrafficClass&0xfc)<<4|uint8(s.FlowID>>16)&0xf
+//@   ensures result1 == nil ==> buf[14] == uint8(s.FlowID>>8) && buf[15] == uint8(s.FlowID) && buf[16] == uint8(s.PathType) && buf[17] == uint8(s.DstAddrType&0xf)<<4|uint8(s.SrcAddrType&0xf) && buf[18] == 0 && buf[19] == 0
+//@   # 3. address header: ISD-AS pair unless a DRKey SPI is used; host addresses as selected by the SPI type and direction
+//@   ensures result1 == nil && !drkey ==> uint64(s.DstIA) == slayers.be64(buf[20], buf[21], buf[22], buf[23], buf[24], buf[25], buf[26], buf[27]) && uint64(s.SrcIA) == slayers.be64(buf[28], buf[29], buf[30], buf[31], buf[32], buf[33], buf[34], buf[35])
+//@   ensures result1 == nil && withDst ==> forall j int :: 0 <= j && j < len(s.RawDstAddr) ==> buf[20+iaLen+j] == s.RawDstAddr[j]
+//@   ensures result1 == nil && withSrc ==> forall j int :: 0 <= j && j < len(s.RawSrcAddr) ==> buf[20+iaLen+dl+j] == s.RawSrcAddr[j]
+//@   # 4. the path with its mutable fields zeroed
+//@   ensures result1 == nil && typeis(s.Path, *scion.Raw) ==> result0 == po+len(r.Raw) && buf[po] == 0 && buf[po+1] == (r.PathMeta.SegLen[0]&0x3f)>>4 && buf[po+2] == (r.PathMeta.SegLen[0]&0xf)<<4|(r.PathMeta.SegLen[1]&0x3f)>>2 && buf[po+3] == (r.PathMeta.SegLen[1]&0x3)<<6|r.PathMeta.SegLen[2]&0x3f
+//@   ensures result1 == nil && typeis(s.Path, *scion.Raw) ==> forall j int :: 4 <= j && j < len(r.Raw) ==> buf[po+j] == ite(mutPos(r.NumINF, r.NumHops, j), 0, old(r.Raw[j]))
+//@   ensures result1 == nil && typeis(s.Path, *onehop.Path) ==> result0 == po+32 && buf[po] == ite(o.Info.ConsDir, 1, 0)|ite(o.Info.Peer, 2, 0) && buf[po+1] == 0 && buf[po+2] == 0 && buf[po+3] == 0 && buf[po+4] == uint8(o.Info.Timestamp>>24) && buf[po+5] == uint8(o.Info.Timestamp>>16) && buf[po+6] == uint8(o.Info.Timestamp>>8) && buf[po+7] == uint8(o.Info.Timestamp) && buf[po+8] == 0 && buf[po+9] == o.FirstHop.ExpTime && buf[po+10] == uint8(o.FirstHop.ConsIngress>>8) && buf[po+11] == uint8(o.FirstHop.ConsIngress) && buf[po+12] == uint8(o.FirstHop.ConsEgress>>8) && buf[po+13] == uint8(o.FirstHop.ConsEgress) && buf[po+14] == o.FirstHop.Mac[0] && buf[po+15] == o.FirstHop.Mac[1] && buf[po+16] == o.FirstHop.Mac[2] && buf[po+17] == o.FirstHop.Mac[3] && buf[po+18] == o.FirstHop.Mac[4] && buf[po+19] == o.FirstHop.Mac[5]
+//@   ensures result1 == nil && typeis(s.Path, *onehop.Path) ==> buf[po+20] == 0 && buf[po+21] == 0 && buf[po+22] == 0 && buf[po+23] == 0 && buf[po+24] == 0 && buf[po+25] == 0 && buf[po+26] == 0 && buf[po+27] == 0 && buf[po+28] == 0 && buf[po+29] == 0 && buf[po+30] == 0 && buf[po+31] == 0
+//@   ensures result1 == nil && typeis(s.Path, empty.Path) ==> result0 == po
